@@ -163,3 +163,96 @@ def class_histogram(verdicts):
         key = v[3] + ":" + v[4].split("/")[0]
         h[key] = h.get(key, 0) + 1
     return h
+
+
+# ---------------------------------------------------------------------------------------------
+# C20 / C17 streams
+A_DEGEN = dict(Leaves=["i1", "au0"], UnOps=[], BinOps=["<"], Stmts=["Pop", "Approve", "Return"],
+               Ctrl=["Seq2", "Seq3", "If2", "If3", "While", "For", "Break", "Continue", "EmptySeq"],
+               NVarsU=1, NVarsB=0, InitVars=False)
+A_UNINIT = dict(Leaves=["i1", "au0"], UnOps=[], BinOps=["<"], Stmts=["Pop", "Return", "Approve"],
+                Ctrl=["Seq2", "Seq3", "If2", "If3", "Cond2", "While", "For", "Break", "Continue"],
+                NVarsU=2, NVarsB=0, InitVars=False)
+
+
+def N(k, t="u", n=(), s="", a=(), i=()):
+    return {"k": k, "t": t, "n": list(n), "s": s, "a": list(a), "i": list(i), "sp": 0}
+
+
+def argu(j):
+    return N("Op", "u", s="btoi", a=[N("TxnA", "b", s="ApplicationArgs", i=[j])])
+
+
+def big_programs(tier):
+    """size-parametrised shapes (long straight-line code, deep nesting); the parameter is the `big` tag."""
+    out = []
+    sizes = [200, 400, 1000] if tier == "quick" else [200, 400, 1000, 3000]
+    for n in sizes:
+        out.append(("seq-%d" % n, N("Seq", "u", a=[N("Pop", "n", a=[N("Int", n=[1])]) for _ in range(n)] + [N("Int", n=[1])])))
+        out.append(("assert-seq-%d" % n, N("Seq", "u", a=[N("Assert", "n", a=[argu(0)]) for _ in range(n)] + [N("Int", n=[1])])))
+    for d in ([40, 120] if tier == "quick" else [40, 120, 250]):
+        e = N("Pop", "n", a=[N("Int", n=[1])])
+        for _ in range(min(d // 4, 16)):      # If.type_of() is exponential in the nesting depth at construction
+            e = N("If", "n", a=[argu(0), e])
+        out.append(("nest-if-%d" % min(d // 4, 16), N("Seq", "u", a=[e, N("Int", n=[1])])))
+        x = N("Int", n=[1])
+        for _ in range(d):
+            x = N("Op", "u", s="+", a=[x, N("Int", n=[1])])
+        out.append(("nest-add-%d" % d, x))
+        w = N("Pop", "n", a=[N("Int", n=[1])])
+        for _ in range(min(d, 60)):
+            w = N("While", "n", a=[argu(0), w])
+        out.append(("nest-while-%d" % min(d, 60), N("Seq", "u", a=[w, N("Int", n=[1])])))
+    progs = []
+    for tag, main in out:
+        progs.append({"main": main, "rt": [], "vars": [], "mode": "app", "big": tag})
+    return progs
+
+
+def c20_programs(tier, seed, rnd):
+    q = tier == "quick"
+    plans = [("control", A_CONTROL, 6 if q else 7, 1200 if q else 12000),
+             ("effects", A_EFFECTS, 5 if q else 6, 800 if q else 8000),
+             ("loops", A_LOOPS, 6 if q else 8, 800 if q else 8000),
+             ("degen", A_DEGEN, 6 if q else 7, 2500 if q else 25000),
+             ("uninit", A_UNINIT, 6 if q else 7, 1200 if q else 12000)]
+    progs, results = [], []
+    for name, alpha, n, cap in plans:
+        c = dict(alpha)
+        c["MaxNodes"] = n
+        c["SigsName"] = "none"
+        rs, res = gen.run_builder(c, "c20_" + name, workers=8, timeout=1500)
+        results.append(res)
+        for p in sample(rs, cap, rnd):
+            progs.append(with_vars(finalize(p), c))
+    progs += big_programs(tier)
+    return progs, results
+
+
+def c20_known(prog, clause, site, result):
+    """finding key of a recorded genuine defect when this failing case is an instance of it (by trigger), else None"""
+    return None
+
+
+A_UNINIT_IDX = dict(Leaves=["i1", "au0", "idx1"], UnOps=[], BinOps=["<"], Stmts=["Pop", "Return", "Approve"],
+                    Ctrl=["Seq2", "Seq3", "If2", "If3", "While", "Break"], NVarsU=2, NVarsB=0, InitVars=False)
+
+
+def c17_programs(tier, seed, rnd):
+    q = tier == "quick"
+    plans = [("uninit", A_UNINIT, 7 if q else 8, 3000 if q else 40000),
+             ("uninit_idx", A_UNINIT_IDX, 7 if q else 8, 1500 if q else 20000),
+             ("degen", A_DEGEN, 6 if q else 7, 1000 if q else 15000)]
+    progs, results = [], []
+    for name, alpha, n, cap in plans:
+        c = dict(alpha)
+        c["MaxNodes"] = n
+        c["SigsName"] = "none"
+        rs, res = gen.run_builder(c, "c17_" + name, workers=8, timeout=1500)
+        results.append(res)
+        for p in sample(rs, cap, rnd):
+            progs.append(with_vars(finalize(p), c))
+    # the same programs with explicitly requested slot ids for every variable (every third recipe)
+    import outcomes
+    progs += [outcomes.with_requested_ids(p) for p in progs[::3]]
+    return progs, results
